@@ -200,18 +200,18 @@ def run_config(chk, config):
             evs = b.events()
             reads = [e for e in evs if e[0] == "read"]
             pushes = [e for e in evs if e[0] == "push"]
-            if len(reads) < 4 or not pushes:
-                probs.append("iteration without the 4 header reads / without a push")
+            hv = AvpHeaderView(eng, b, [e for e in evs[H.ntrace:] if e[0] == "read" and e[1] == "reader.*"])
+            if not hv.ok or not pushes:
+                probs.append("iteration without the 6 header octets read / without a push")
                 continue
-            o1, o2, vendor, at = [r[3] for r in reads[:4]]
             pv = pushes[-1][2]
             vi, _ = result_parts(pv)
-            if vi == 0 and not eng.ent(b, c_eq(vendor.lin, Lin.const(0))):
+            if vi == 0 and not eng.ent(b, c_eq(hv.vendor, Lin.const(0))):
                 probs.append("an AVP is accepted although its vendor id is not proven 0")
-            o1name = next(iter(o1.lin.t))
+            o1name, o1off = hv.o1src
             for (sym, k) in b.bitfacts:
-                if sym == o1name and k != hs["avp_header"]["flags_octet"]["H"]:
-                    probs.append("decoder branches on AVP flag bit %s (only H may influence the result)" % k)
+                if sym == o1name and o1off <= k < o1off + 6 and k - o1off != hs["avp_header"]["flags_octet"]["H"]:
+                    probs.append("decoder branches on AVP flag bit %s (only H may influence the result)" % (k - o1off))
     eng.hooks["loop"] = on_loop
     eng.analyse(a.avp_greedy["key"], name="AVP::try_read_greedy[%s]" % config)
     chk.oblig(not probs and stats["back"] >= 39, "avp-header-rules | AVP::try_read_greedy",
@@ -233,14 +233,17 @@ def run_config(chk, config):
         elif i2 == 1:
             continue
         reads = [e for e in s.events() if e[0] == "read"]
-        if len(reads) != 4 or [r[2] for r in reads] != [1, 1, 2, 2]:
-            continue
+        hv = AvpHeaderView(e2, s, reads)
+        if not hv.ok or sum(r[2] for r in reads) != 6:
+            okh = False
+            break
         lv = dict(layout.leaves(e2, s, inner))
-        q, r = e2.divmod_const(s, reads[0][3].lin, 64)
         pl = lv.get(".payload_length")
-        okh = (isinstance(pl, VInt) and e2.ent(s, c_eq(pl.lin + 6, q.scale(256) + reads[1][3].lin)) and
-               isinstance(lv.get(".vendor_id"), VInt) and lv[".vendor_id"].lin == reads[2][3].lin and
-               isinstance(lv.get(".attribute_type"), VInt) and lv[".attribute_type"].lin == reads[3][3].lin)
+        okh = (isinstance(pl, VInt) and e2.ent(s, c_eq(pl.lin + 6, hv.total)) and
+               isinstance(lv.get(".vendor_id"), VInt) and e2.ent(s, c_eq(lv[".vendor_id"].lin, hv.vendor)) and
+               isinstance(lv.get(".attribute_type"), VInt) and e2.ent(s, c_eq(lv[".attribute_type"].lin, hv.attr)))
+        if not okh:
+            break
     chk.oblig(okh, "avp-header-layout | Header::try_read",
               "AVP header is not parsed as flags+length(2: length = (o1>>6)<<8 | o2), vendor id(2), attribute type(2)", {},
               {"obligation": "AVP header field positions and the 10-bit length split"})
@@ -251,6 +254,12 @@ def run(chk):
     # the specified language also fixes the extents: declared lengths, offset pad, payload (C08's obligations)
     import rules.c08 as c08
     c08.run_config(chk, "default")
+    # "with the specified values": the enumerated-code tables and bit assignments the decoder maps through (C16, C17)
+    from framework import Sub
+    import rules.c16 as c16
+    import rules.c17 as c17
+    Sub(chk, "via C16 | ", lambda k: not (" encode" in k)).borrow(c16, "default", 15, "decode-side code tables")
+    Sub(chk, "via C17 | ", lambda k: k.startswith(("spec-bit", "accessor", "wire"))).borrow(c17, "default", 12, "capability/type bit assignments")
     if chk.tier == "thorough":
         for cfg in ("debug", "release"):
             run_config(chk, cfg)
